@@ -447,7 +447,7 @@ def rule_balance(ctx):
         f = b.file()
         if not (f.endswith("strong.rs") or f.endswith("weak.rs") or name == DGN):
             continue
-        if name in PRIMITIVES or name in INLINED:
+        if name in PRIMITIVES or name in INLINED or name in prog.auto_inline():
             continue
         paths = own_paths(ctx, name)
         any_entry = False
